@@ -24,7 +24,7 @@ let hex16_pad v = let h = hex_of_n v in String.make (max 0 (16 - String.length h
 let cmp_n a b = compare (hex16_pad a) (hex16_pad b)
 
 let dump_device (s : srv) eui =
-  match get_by_eui s.s_db eui with
+  match dt_by_eui s.s_tab eui with
   | None -> Printf.sprintf "dev %s ERR" (hx eui)
   | Some dv ->
     let non = List.sort compare (List.map int_of_n dv.d_nonces) in
@@ -32,19 +32,22 @@ let dump_device (s : srv) eui =
       (hex_of_bytes dv.d_nwkskey) (hex_of_bytes dv.d_appskey) (int_of_n dv.d_fup) (int_of_n dv.d_fdn)
       (if dv.d_keywarn then "1" else "0") (String.concat "," (List.map string_of_int non))
 let dump_outbox (s : srv) eui =
-  let l = List.filter (fun m -> m.m_eui = eui) s.s_db.outbox in
+  let l = (dt_get s.s_tab eui).ds_outbox in
   let l = List.stable_sort (fun a b -> cmp_n a.m_created b.m_created) l in
   "outbox " ^ hx eui ^ " [" ^ String.concat "," (List.map (fun m ->
     Printf.sprintf "%d:%s:%s:%d" (int_of_n m.m_created) (if m.m_sent = N0 then "0" else "1") (if m.m_acktime = N0 then "0" else "1") (int_of_n m.m_fcntup)) l) ^ "]"
 let dump_inbox (s : srv) eui =
-  let l = List.filter (fun m -> m.u_eui = eui) s.s_db.inbox in
+  let l = (dt_get s.s_tab eui).ds_inbox in
   let l = List.stable_sort (fun a b -> cmp_n a.u_ts b.u_ts) l in
   "inbox " ^ hx eui ^ " [" ^ String.concat "," (List.map (fun m -> hex_of_bytes m.u_data) l) ^ "]"
 let dump_fb (s : srv) =
-  let items = List.map (fun (eui, fd) ->
-    let (an, da) = match fd.fo_ja with Some j -> (hex_of_bytes j.ja_appnonce, int_of_n (devaddr_u32 j.ja_devaddr)) | None -> ("000000", 0) in
-    Printf.sprintf "%s mt=%d ack=%s port=%d payload=%s cmds=0 ja=%s/%d" (eui_dashed eui) (int_of_n fd.fo_mtype)
-      (if fd.fo_ack then "true" else "false") (int_of_n fd.fo_port) (hex_of_bytes fd.fo_payload) an da) s.s_fb in
+  let items = List.filter_map (fun (eui, st) ->
+    match st.ds_fb with
+    | None -> None
+    | Some fd ->
+      let (an, da) = match fd.fo_ja with Some j -> (hex_of_bytes j.ja_appnonce, int_of_n (devaddr_u32 j.ja_devaddr)) | None -> ("000000", 0) in
+      Some (Printf.sprintf "%s mt=%d ack=%s port=%d payload=%s cmds=0 ja=%s/%d" (eui_dashed eui) (int_of_n fd.fo_mtype)
+        (if fd.fo_ack then "true" else "false") (int_of_n fd.fo_port) (hex_of_bytes fd.fo_payload) an da)) s.s_tab in
   "fb{" ^ String.concat "," (List.sort compare items) ^ "}"
 let dump_all (s : srv) euis =
   String.concat " ; " (List.concat_map (fun eui -> [dump_device s eui; dump_outbox s eui; dump_inbox s eui]) euis) ^ " ; " ^ dump_fb s
@@ -53,11 +56,13 @@ let mk_radio datr rssi ch =
   { r_rssi = z_of_int rssi; r_snr = N0; r_freq = N0; r_datr = coq_string_of datr; r_chan = n_of_int ch; r_rfch = N0; r_rx1delay = N0 }
 
 type ev =
+  | Init
   | Rx of rxpacket * n list * n
   | Sub of dmsg
 
 let parse_event s =
   match String.split_on_char ',' s with
+  | ["I"] -> Init
   | "R" :: raw :: gw :: ts :: datr :: rssi :: ch :: clock :: appnonce :: newaddr :: _ ->
     let rx = { rx_raw = bytes_of_hex raw; rx_radio = mk_radio datr (int_of_string rssi) (int_of_string ch);
                rx_gw = { g_eui = hexn gw; g_host = N0; g_port = N0; g_clock = n_of_int (int_of_string clock); g_ver = n_of_int 2 };
@@ -83,13 +88,14 @@ let run_history g obs (judge : n list -> step list -> string) =
   (* CreateDevice: primary key eui *)
   let devs_u = List.fold_left (fun acc dv -> if List.exists (fun x -> x.d_eui = dv.d_eui) acc then acc else acc @ [dv]) [] devs in
   let euis = List.sort cmp_n (List.map (fun dv -> dv.d_eui) devs_u) in
-  let s0 = { s_db = { devs = devs_u; nonces = []; inbox = []; outbox = []; apps = apps };
-             s_fb = []; s_cfg = { cfg_netid = n_of_int netid; cfg_disable_nonce_check = nonce_off } } in
+  let tab = List.map (fun dv -> (dv.d_eui, { ds_row = Some dv; ds_nonces = []; ds_inbox = []; ds_outbox = []; ds_fb = None })) devs_u in
+  let s0 = { s_tab = tab; s_apps = apps; s_cfg = { cfg_netid = n_of_int netid; cfg_disable_nonce_check = nonce_off } } in
   let evs = List.map parse_event (String.split_on_char '|' (g "ev")) in
   let iobs = Array.of_list (String.split_on_char '|' obs) in
   let (_, lines, steps, _) = List.fold_left (fun (s, lines, steps, i) ev ->
     let io = if i < Array.length iobs then iobs.(i) else "" in
     match ev with
+    | Init -> (s, ("I " ^ dump_all s euis) :: lines, { ev; pre = s; post = s; outs = []; impl_obs = io } :: steps, i + 1)
     | Rx (rx, an, na) ->
       let (s', outs) = rx_event e d s rx an na (n_of_int 1) in
       (s', (out_strings outs ^ " " ^ dump_all s' euis) :: lines, { ev; pre = s; post = s'; outs; impl_obs = io } :: steps, i + 1)
